@@ -197,7 +197,7 @@ func lokiEntryMember(r *rand.Rand, es []LEntry) member {
 			key = "timestamp"
 		}
 		var tsv string
-		if r.Intn(2) == 0 { // negative nanoseconds are written as integers too (rejected before fix e276684)
+		if r.Intn(2) == 0 && len(es) < 500 { // negative nanoseconds are written as integers too (rejected before fix e276684); the oracle table of a long stream would be searched linearly
 			tsv = rfc3339(e.Ts)
 		} else {
 			tsv = strconv.FormatInt(e.Ts, 10)
